@@ -269,6 +269,17 @@ fn check_arbitrary(input: &[u8]) -> CaseResult {
     let mut d = minicbor::Decoder::new(input);
     drive(Tokenizer::from(&mut d), input, "Tokenizer::from(&mut Decoder)")?;
     ensure!(d.position() <= input.len(), "position", "Tokenizer::from(&mut Decoder) left the decoder at {} of {}", d.position(), input.len());
+    // a decoder may stand anywhere when it is turned into a tokenizer - `set_position` is public and unchecked, and skipping a
+    // declared length in a truncated message leaves it behind the end: there is nothing to read there, so the tokenizer ends
+    for start in [input.len() / 2, input.len(), input.len() + 1, input.len() + 1000, usize::MAX - 1, usize::MAX] {
+        let rest = &input[start.min(input.len()) ..];
+        let mut d = minicbor::Decoder::new(input); d.set_position(start);
+        drive(Tokenizer::from(d), rest, "Tokenizer::from(Decoder at a later position)")?;
+        let mut d = minicbor::Decoder::new(input); d.set_position(start);
+        drive(d.tokens(), rest, "Decoder::tokens at a later position")?;
+        let mut d = minicbor::Decoder::new(input); d.set_position(start);
+        drive(Tokenizer::from(&mut d), rest, "Tokenizer::from(&mut Decoder at a later position)")?;
+    }
     Ok(())
 }
 
